@@ -440,6 +440,12 @@ func RunWorker(t *testing.T) {
 		raceBefore = raceLogSize()
 		v, rc := execTape(t, sc, tape, st, prop, tier, id)
 		st.Runs++
+		if sl := os.Getenv("VERIF_SIGLOG"); sl != "" {
+			// determinism self-test: one line per run with everything that identifies its execution
+			f, _ := os.OpenFile(sl, os.O_APPEND|os.O_CREATE|os.O_WRONLY, 0644)
+			fmt.Fprintf(f, "%s steps=%d sig=%016x tape=%d viol=%v\n", id, st.Steps, fnv64(strings.Join(rc.sig, "|")), len(tape.Recorded()), v != nil)
+			f.Close()
+		}
 		if rc.nontrivial {
 			sort.Strings(rc.sig)
 			st.Distinct[fmt.Sprintf("%016x", fnv64(strings.Join(rc.sig, "|")))] = true
